@@ -8,9 +8,9 @@ use serde::{Deserialize, Serialize};
 use serde_json::{Value, json};
 
 /// Server -> client event names in registration order (server channel = 2 + index without protocol check).
-pub const SEV: [&str; 4] = ["SOrd", "SInd", "SMap", "STrig"];
+pub const SEV: [&str; 5] = ["SOrd", "SInd", "SMap", "STrig", "SUnr"];
 /// Client -> server event names in registration order (client channel = 1 + index without protocol check).
-pub const CEV: [&str; 3] = ["COrd", "CMap", "CTrig"];
+pub const CEV: [&str; 4] = ["COrd", "CMap", "CTrig", "CUnr"];
 
 #[derive(Event, Serialize, Deserialize, Clone, Debug)]
 pub struct SOrd {
@@ -32,6 +32,16 @@ impl MapEntities for SMap {
 }
 #[derive(Event, Serialize, Deserialize, Clone, Debug)]
 pub struct STrig {
+    pub id: u32,
+}
+/// Dependent server event on an unreliable channel (may be lost or reordered).
+#[derive(Event, Serialize, Deserialize, Clone, Debug)]
+pub struct SUnr {
+    pub id: u32,
+}
+/// Client event on an unreliable channel.
+#[derive(Event, Serialize, Deserialize, Clone, Debug)]
+pub struct CUnr {
     pub id: u32,
 }
 #[derive(Event, Serialize, Deserialize, Clone, Debug)]
@@ -80,6 +90,9 @@ fn emit_pending(
                 "SInd" => {
                     commands.send_event(ToClients { mode, event: SInd { id } });
                 }
+                "SUnr" => {
+                    commands.send_event(ToClients { mode, event: SUnr { id } });
+                }
                 "SMap" => {
                     commands.send_event(ToClients { mode, event: SMap { id, e: e.unwrap_or(Entity::PLACEHOLDER) } });
                 }
@@ -98,6 +111,9 @@ fn emit_pending(
                 match t.as_str() {
                 "COrd" => {
                     commands.send_event(COrd { id });
+                }
+                "CUnr" => {
+                    commands.send_event(CUnr { id });
                 }
                 "CMap" => {
                     commands.send_event(CMap { id, e: e.unwrap_or(Entity::PLACEHOLDER) });
@@ -124,6 +140,17 @@ fn read_sord(mut r: EventReader<SOrd>, t: Option<Res<ServerUpdateTick>>, mut log
     let u = upd(t);
     for e in r.read() {
         log.0.push(json!({"t": "SOrd", "id": e.id, "upd": u}));
+    }
+}
+fn read_sunr(mut r: EventReader<SUnr>, t: Option<Res<ServerUpdateTick>>, mut log: ResMut<EvLog>) {
+    let u = upd(t);
+    for e in r.read() {
+        log.0.push(json!({"t": "SUnr", "id": e.id, "upd": u}));
+    }
+}
+fn read_cunr(mut r: EventReader<FromClient<CUnr>>, mut log: ResMut<EvLog>) {
+    for e in r.read() {
+        log.0.push(json!({"t": "CUnr", "id": e.event.id, "from": e.client.to_bits()}));
     }
 }
 fn read_sind(mut r: EventReader<SInd>, t: Option<Res<ServerUpdateTick>>, mut log: ResMut<EvLog>) {
@@ -168,10 +195,12 @@ pub fn register(app: &mut App) {
         .make_event_independent::<SInd>()
         .add_mapped_server_event::<SMap>(Channel::Ordered)
         .add_server_trigger::<STrig>(Channel::Ordered)
+        .add_server_event::<SUnr>(Channel::Unreliable)
         .add_client_event::<COrd>(Channel::Ordered)
         .add_mapped_client_event::<CMap>(Channel::Ordered)
         .add_client_trigger::<CTrig>(Channel::Ordered)
-        .add_systems(Update, (read_sord, read_sind, read_smap, read_cord, read_cmap))
+        .add_client_event::<CUnr>(Channel::Unreliable)
+        .add_systems(Update, (read_sord, read_sind, read_smap, read_cord, read_cmap, read_sunr, read_cunr))
         .add_observer(on_strig)
         .add_observer(on_ctrig);
 }
